@@ -294,13 +294,21 @@ def r7_4(repo: Repo) -> RuleResult:
     return rr
 
 
-RULES = [r7_1, r7_2, r7_3, r7_4]
+def r7_5(repo: Repo) -> RuleResult:
+    """The flat arc number `i * m + j` of a 256 x 300 problem is 76 799: it must be computed in a full-width integer."""
+    from .c10 import r10_9
+
+    return r10_9(repo, "R7.5", {"get_transport_plan", "transport_plan"})
+
+
+RULES = [r7_1, r7_2, r7_3, r7_4, r7_5]
 CLAIM = (
     "index plumbing only: R7.1 the linearisation of cell (i, j) used when costs are written (pynndescent initialize_cost, parsed "
     "from the installed package) equals the one used when the flow is read back (get_transport_plan), proved symbolically under "
     "cost.shape = (|p|, |q|); R7.2 the cost matrix has orientation (|p|, |q|) on both branches at both call sites (shape-kind "
     "propagation through .T); R7.3 demand enters negated; R7.4 p, -q and cost reach the solver set-up as given - a "
-    "division on the way whose divisor derives from the cost matrix needs a dominating non-zero test (an all-zero cost matrix is valid input)."
+    "division on the way whose divisor derives from the cost matrix needs a dominating non-zero test (an all-zero cost matrix is valid input); "
+    "R7.5 the arc number is not pinned to a narrow integer type through @njit(locals=...)."
 )
 NOT_DECIDED = (
     "non-negativity, marginals to 1e-9 and optimality to 1e-7 of the network-simplex result: numerical facts about an iterative "
